@@ -25,7 +25,10 @@ class C08(Spec):
     rule = ('the model specs of C01 (nested groups, explicit / implicit / IndepVarComp / auto_ivc, src_indices, units, '
             'feedback connections), each run unscaled and under 2 (quick) random assignments of positive and negative '
             'ref / ref0 / res_ref (scalar and per-entry; power-of-two spans so that the comparison is exact, and general '
-            'values compared to solver tolerance), one sampled solver configuration per spec; a case is a distinct spec')
+            'values compared to solver tolerance), given through add_output, through System.set_output_solver_options '
+            '(on the component, on an ancestor group or on the model with the relative path) or both, including '
+            'models whose ONLY scaling is one ref0 (scalar or array) set by set_output_solver_options; one sampled '
+            'solver configuration per spec; a case is a distinct spec')
     assumptions = ['convergence-rate differences are not observed; coupled specs are compared at 1e-7 relative '
                    '(the scaled run converges on scaled residual norms), feed-forward ones exactly or at 1e-9',
                    'bounds / line searches under scaling belong to C10']
@@ -43,9 +46,16 @@ class C08(Spec):
                 cfg['jac'] = None
             scaled = []
             for j in range(nvar):
-                pow2 = (j % 2 == 0)
-                scaled.append({'pow2': pow2, 'spec': sg.with_scaling(spec, rng, pow2=pow2)})
-            cases.append({'spec': spec, 'cfg': cfg, 'scaled': scaled, 'kind': spec_kind(spec) + ':' + cfg['lin']})
+                if j % 2 == 0:
+                    pow2, route, only = True, rng.choice(['add', 'sso', 'mixed']), None
+                else:
+                    pow2 = rng.random() < 0.5
+                    route = rng.choice(['sso', 'sso', 'mixed', 'add'])
+                    only = rng.choice(['ref0', 'ref0', 'one', None])
+                scaled.append({'pow2': pow2, 'route': route, 'only': only,
+                               'spec': sg.with_scaling(spec, rng, pow2=pow2, route=route, only=only)})
+            cases.append({'spec': spec, 'cfg': cfg, 'scaled': scaled,
+                          'kind': spec_kind(spec) + ':' + cfg['lin'] + ':' + '/'.join('%s%s' % (v['route'], '-only-' + v['only'] if v['only'] else '') for v in scaled)})
         return cases
 
     def search_gen(self, tier, rng):
